@@ -24,6 +24,7 @@ type modLoc struct {
 	base  string
 	whole bool   // all objects (type-level)
 	guard string // "" or a condition under which the location is modified (dynamic type test)
+	idx   string // element locations (E| roots): the index inside the backing array `base` ("" = every element of it)
 }
 
 func (m modLoc) covers(p Ptr) bool {
@@ -127,7 +128,7 @@ func (fr *Frame) evalModLoc(env *Env, cl Clause) (out []modLoc) {
 	case *ast.StarExpr:
 		tv := env.eval(x.X)
 		p := tv.V.(Ptr)
-		return []modLoc{{root: p.Root, path: p.Path, base: p.Base}}
+		return []modLoc{{root: p.Root, path: p.Path, base: p.Base, idx: elemIdx(p)}}
 	case *ast.CallExpr:
 		if id, ok := x.Fun.(*ast.Ident); ok && id.Name == "deep" {
 			// deep(p): every leaf of the struct p points to, including structs embedded by value
@@ -154,7 +155,7 @@ func (fr *Frame) evalModLoc(env *Env, cl Clause) (out []modLoc) {
 				if rt := rootTypes[q.Root]; rt != nil {
 					fr.vc.declareLeafHeaps(env.st, q.Root, "", rt)
 				}
-				locs = append(locs, modLoc{root: q.Root, path: strings.SplitN(lp, "#", 2)[0], base: q.Base})
+				locs = append(locs, modLoc{root: q.Root, path: strings.SplitN(lp, "#", 2)[0], base: q.Base, idx: elemIdx(q)})
 			}
 			return locs
 		}
@@ -207,12 +208,12 @@ func (fr *Frame) evalModLoc(env *Env, cl Clause) (out []modLoc) {
 		}
 		tv := env.evalAddr(x)
 		p := tv.V.(Ptr)
-		return []modLoc{{root: p.Root, path: p.Path, base: p.Base}}
+		return []modLoc{{root: p.Root, path: p.Path, base: p.Base, idx: elemIdx(p)}}
 	case *ast.IndexExpr:
 		// m[*] for maps is written m[:]; single element s[i]
 		tv := env.evalAddr(x)
 		p := tv.V.(Ptr)
-		return []modLoc{{root: p.Root, path: p.Path, base: p.Base}}
+		return []modLoc{{root: p.Root, path: p.Path, base: p.Base, idx: elemIdx(p)}}
 	case *ast.Ident:
 		if _, isName := env.names[x.Name]; !isName {
 			if o, ok := env.lookupPkgObj(x.Name).(*types.Var); ok && o.Pkg() != nil && o.Parent() == o.Pkg().Scope() {
@@ -234,6 +235,16 @@ func (fr *Frame) evalModLoc(env *Env, cl Clause) (out []modLoc) {
 	}
 	env.fail(x, "unsupported modifies location")
 	return nil
+}
+
+// elemIdx: a location inside ONE element of a backing array (pointer to / into a slice element): the element's index.
+// A callee whose frame is stated over such a pointer (modifies deep(encoder), encoder.length, *p) writes that element
+// only; havocing the whole backing array (as before) is sound but loses what is known about the other elements.
+func elemIdx(p Ptr) string {
+	if p.isElem() {
+		return p.Idx
+	}
+	return ""
 }
 
 func guardOf2(env *Env, x ast.Expr) (g string) {
@@ -409,7 +420,7 @@ func (fr *Frame) applyHints(c *ssa.CallCommon, pos token.Pos, st *State, instr *
 		k = fr.hintCount[hn] + 1
 	}
 	for i, h := range fr.contract.Hints {
-		if h.Callee != hn || h.K != k {
+		if h.Callee != hn || (h.K != k && h.K != -1) {
 			continue
 		}
 		env := fr.baseEnv(st)
@@ -450,7 +461,7 @@ func (fr *Frame) applyHints(c *ssa.CallCommon, pos token.Pos, st *State, instr *
 			fr.hintApplied = map[int]bool{}
 		}
 		fr.hintApplied[i] = true
-		an := fmt.Sprintf("%s#assert:%s@%d.%d", shortFuncName(vc.fn), hn, h.K, i+1)
+		an := fmt.Sprintf("%s#assert:%s@%d.%d", shortFuncName(vc.fn), hn, k, i+1)
 		vc.addOblig("assert", an, st, goal, pos, h.C.Text)
 		if vc.noAssume != nil && vc.dry == 0 && vc.noAssume(an, "assert") {
 			continue // a cut that is not claimed is not assumed either
@@ -916,6 +927,7 @@ func (fr *Frame) applyMods(st, pre *State, mods []modLoc, pos token.Pos) {
 					}
 				}
 				x.guards = append(x.guards, g)
+				x.idxs = append(x.idxs, m.idx)
 			}
 		}
 	}
